@@ -2,7 +2,7 @@ use std::collections::HashMap;
 use std::path;
 use std::result::Result;
 
-use tokio::io::{AsyncBufReadExt, AsyncReadExt};
+use tokio::io::AsyncReadExt;
 use tokio_stream::StreamExt;
 
 use crate::core::error::MonorailError;
@@ -137,6 +137,24 @@ pub(crate) async fn git_cmd_rev_parse(
     }
 }
 
+// Reads the NUL-separated path names printed by a git command invoked with `-z`.
+async fn read_nul_separated_changes(
+    mut stdout: tokio::process::ChildStdout,
+) -> Result<Vec<Change>, MonorailError> {
+    let mut data = vec![];
+    stdout.read_to_end(&mut data).await?;
+    data.split(|b| *b == 0)
+        .filter(|name| !name.is_empty())
+        .map(|name| {
+            std::str::from_utf8(name)
+                .map(|name| Change {
+                    name: name.to_string(),
+                })
+                .map_err(MonorailError::from)
+        })
+        .collect()
+}
+
 pub(crate) async fn git_cmd_other_changes(
     git_path: &str,
     work_path: &path::Path,
@@ -144,16 +162,12 @@ pub(crate) async fn git_cmd_other_changes(
     let mut child = get_git_cmd_child(
         git_path,
         work_path,
-        &["ls-files", "--others", "--exclude-standard"],
+        &["ls-files", "--others", "--exclude-standard", "-z"],
     )
     .await?;
     let mut out = vec![];
     if let Some(stdout) = child.stdout.take() {
-        let reader = tokio::io::BufReader::new(stdout);
-        let mut lines = reader.lines();
-        while let Some(line) = lines.next_line().await? {
-            out.push(Change { name: line });
-        }
+        out = read_nul_separated_changes(stdout).await?;
     }
     let mut stderr_string = String::new();
     if let Some(mut stderr) = child.stderr.take() {
@@ -181,7 +195,10 @@ pub(crate) async fn git_cmd_diff_changes(
     begin: Option<&str>,
     end: Option<&str>,
 ) -> Result<Vec<Change>, MonorailError> {
-    let mut args = vec!["diff", "--name-only", "--find-renames"];
+    // A moved file is a deletion of the old path and a creation of the new one, and both
+    // must be reported; `-z` makes git print every path verbatim instead of quoting names
+    // that contain spaces, non-ASCII or other special characters.
+    let mut args = vec!["diff", "--name-only", "--no-renames", "-z"];
     if let Some(begin) = begin {
         args.push(begin);
     }
@@ -191,11 +208,7 @@ pub(crate) async fn git_cmd_diff_changes(
     let mut child = get_git_cmd_child(git_path, work_path, &args).await?;
     let mut out = vec![];
     if let Some(stdout) = child.stdout.take() {
-        let reader = tokio::io::BufReader::new(stdout);
-        let mut lines = reader.lines();
-        while let Some(line) = lines.next_line().await? {
-            out.push(Change { name: line });
-        }
+        out = read_nul_separated_changes(stdout).await?;
     }
     let mut stderr_string = String::new();
     if let Some(mut stderr) = child.stderr.take() {
